@@ -156,7 +156,9 @@ func stress(dir string, seed int64, runs, workers, ops int, table *enc.Table, tr
 					case x < 58:
 						wk.Do(e.Delete("d.log", false, d("w", int32(r.N(workers)))))
 					case x < 70:
-						wk.Do(e.Find("d.acc", d(), d("_id", int32(1)), nil, 0, 0))
+						// sorted reads in several orders (a read leaves the order of the stored documents alone)
+						srt := []bson.D{d("_id", int32(1)), d("_id", int32(-1)), d("n", int32(-1), "_id", int32(-1)), d("m", int32(1), "_id", int32(-1))}[r.N(4)]
+						wk.Do(e.Find("d.acc", d(), srt, nil, 0, 0))
 					case x < 75:
 						wk.Do(e.Count("d.log", d("w", int32(r.N(workers))), 0, 0))
 					case x < 82:
